@@ -5,6 +5,7 @@ package main
 import (
 	"bytes"
 	"fmt"
+	"io/ioutil"
 	"strings"
 	"time"
 
@@ -66,6 +67,24 @@ func runTemplate(text, name string, data interface{}, csp bool) execResult {
 		}
 		var buf bytes.Buffer
 		var err error
+		// name = pre1 \x01 pre2 \x01 ... \x01 target : the pre templates are executed first, with the
+		// same data, their output and errors discarded (a history on the same set); then the target
+		if parts := strings.Split(name, "\x01"); len(parts) > 1 {
+			for _, pre := range parts[:len(parts)-1] {
+				if perr := func() (e error) {
+					defer func() {
+						if p := recover(); p != nil {
+							e = fmt.Errorf("panic: %v", p)
+						}
+					}()
+					return t.ExecuteTemplate(ioutil.Discard, pre, data)
+				}(); perr != nil && strings.HasPrefix(perr.Error(), "panic: ") {
+					r.outcome = "prepanic"
+					return
+				}
+			}
+			name = parts[len(parts)-1]
+		}
 		if name == "" {
 			err = t.Execute(&buf, data)
 		} else {
